@@ -67,17 +67,24 @@ func (r *c19Repo) Watch(context.Context, metav1.ListOptions) (watch.Interface, e
 	return watch.NewFake(), nil
 }
 
+// the try in force; after the scripted ones a well-formed status and a PatchStatus that succeeds
+func (r *c19Repo) cur() c19Try {
+	if r.pos < len(r.tries) {
+		return r.tries[r.pos]
+	}
+
+	return c19Try{ActiveIn: "1/1", Patch: "ok"}
+}
+
 func (r *c19Repo) Get(_ context.Context, key types.NamespacedName, _ metav1.GetOptions) (*v1alpha4.RuleSet, error) {
-	t := r.tries[min(r.pos, len(r.tries)-1)]
+	t := r.cur()
 	r.pos++
 
 	if !t.GetOK {
 		return nil, errors.New("c19: get failed")
 	}
 
-	next := r.tries[min(r.pos, len(r.tries)-1)]
-
-	return c19RuleSet(key.Name, next.ActiveIn), nil
+	return c19RuleSet(key.Name, r.cur().ActiveIn), nil
 }
 
 func (r *c19Repo) PatchStatus(context.Context, v1alpha4.Patch, metav1.PatchOptions) (*v1alpha4.RuleSet, error) {
@@ -85,7 +92,7 @@ func (r *c19Repo) PatchStatus(context.Context, v1alpha4.Patch, metav1.PatchOptio
 
 	gr := schema.GroupResource{Group: "heimdall.dadrus.github.com", Resource: "rulesets"}
 
-	switch r.tries[min(r.pos, len(r.tries)-1)].Patch {
+	switch r.cur().Patch {
 	case "ok":
 		return &v1alpha4.RuleSet{}, nil
 	case "404":
@@ -118,7 +125,7 @@ func c19RuleSet(name, activeIn string) *v1alpha4.RuleSet {
 }
 
 type c19K8sCase struct {
-	Handler string   `json:"handler"` // add update update-class-change delete finalize
+	Handler string   `json:"handler"` // add update delete delete-tombstone finalize
 	ProcOK  bool     `json:"proc_ok"`
 	Tries   []c19Try `json:"tries"`
 }
@@ -130,7 +137,7 @@ func TestVerifC19K8s(t *testing.T) {
 	root := vf.NewRand(vf.Seed())
 	actives := []string{"", "0/0", "1/1", "12/7", "3", "abc", "/", "1/", "/2", "1/2/3", "-1/x", " ", "1 / 2", "0", "//", strings.Repeat("9", 40) + "/1", "1\\2", "½"}
 	patches := []string{"ok", "404", "409", "422", "500", "403", "refused", "timeout"}
-	handlers := []string{"add", "update", "update-class-change", "delete", "finalize"}
+	handlers := []string{"add", "update", "delete", "delete-tombstone", "finalize"}
 
 	var cases []c19K8sCase
 
@@ -183,13 +190,13 @@ func TestVerifC19K8s(t *testing.T) {
 				newRS := rs.DeepCopy()
 				newRS.Generation = 2
 				p.updateRuleSet(rs, newRS)
-			case "update-class-change": // handled as delete + add: two status updates
-				newRS := rs.DeepCopy()
-				newRS.Generation = 2
-				newRS.Spec.Rules = []config2.Rule{{ID: "x"}}
-				p.updateRuleSet(rs, newRS)
 			case "delete":
-				p.deleteRuleSet(cache.DeletedFinalStateUnknown{Key: "ns/rs", Obj: rs}.Obj)
+				p.deleteRuleSet(rs)
+			case "delete-tombstone": // a deletion noticed at a relist only
+				tomb := cache.DeletedFinalStateUnknown{Key: "ns/rs", Obj: rs}
+				if p.filter(tomb) {
+					p.deleteRuleSet(tomb)
+				}
 			default:
 				store := cache.NewStore(cache.MetaNamespaceKeyFunc)
 				store.Add(rs) //nolint:errcheck
